@@ -21,6 +21,7 @@ func checkC12(c *Ctx) {
 	c.Rule("C12/R4", "the beta/t path works in the log domain: nothing reachable from the t distribution's CDF/PDF calls math.Gamma (which overflows for the degrees of freedom large samples produce)")
 
 	c.Rule("C12/R5", "returned functions are re-entrant: no closure created in internal/stats writes a variable it captured (an inverse CDF that keeps its bracketing step between calls drifts to ±Inf after enough calls)")
+	c.Rule("C12/R9", "the normal quantile function is location-scale: every non-constant return of NormalDist.InvCDF is z·Sigma + Mu")
 	c.Rule("C12/R8", "order statistics do not reorder their argument: inside a value-receiver method of Sample every sort acts on a copy of the values (Copy(), a made or appended-to-nil slice)")
 	c.Rule("C12/R7", "the geometric means accumulate in the log domain: no loop-carried value in stats.GeoMean / Sample.GeoMean is multiplied by a raw data element on each iteration")
 	c.Rule("C12/R6", "no 0/0 variance: every division by len(x)-1 in internal/stats is reached only when len(x) >= 2 (a singleton's variance is 0, which the t-tests' zero-variance guard turns into an error; NaN would slip through it)")
@@ -35,6 +36,68 @@ func checkC12(c *Ctx) {
 	c12LenMinusOne(c, p)
 	c12GeoMean(c, p, "C12/R7")
 	c12NoReorder(c, p, "C12/R8")
+	c12LocationScale(c, p)
+}
+
+// c12LocationScale (C12/R9): the normal quantile function is a location-scale transform of the standard one. Every return
+// of NormalDist.InvCDF is a constant (NaN, ±Inf) or z·Sigma + Mu. In particular the symmetry Φ⁻¹(p) = -Φ⁻¹(1-p) holds for
+// the standard normal only: -n.InvCDF(1-p) is off by 2·Mu.
+func c12LocationScale(c *Ctx, p *Prog) {
+	const R = "C12/R9"
+	fn := p.Method("internal/stats", "NormalDist", "InvCDF")
+	if fn == nil {
+		c.Undecided(R, "anchor:NormalDist.InvCDF", "", "not found")
+		return
+	}
+	isField := func(v ssa.Value, name string) bool {
+		if f, _ := loadOfField(v); f != nil && f.Name() == name {
+			return true
+		}
+		if fv, ok := v.(*ssa.Field); ok {
+			f, _ := fieldOfVal(fv)
+			return f != nil && f.Name() == name
+		}
+		return false
+	}
+	n := 0
+	for _, b := range fn.Blocks {
+		ret, ok := b.Instrs[len(b.Instrs)-1].(*ssa.Return)
+		if !ok || len(ret.Results) != 1 {
+			continue
+		}
+		v := retVal(ret, 0)
+		// constants and package-level special values (nan, inf, -inf)
+		if _, isK := v.(*ssa.Const); isK {
+			continue
+		}
+		if ld, ok := v.(*ssa.UnOp); ok {
+			if _, isG := ld.X.(*ssa.Global); isG {
+				continue
+			}
+			if ld.Op == token.SUB {
+				if l2, ok := ld.X.(*ssa.UnOp); ok {
+					if _, isG := l2.X.(*ssa.Global); isG {
+						continue
+					}
+				}
+			}
+		}
+		n++
+		okForm := false
+		if add, ok := v.(*ssa.BinOp); ok && add.Op == token.ADD {
+			for _, ord := range [][2]ssa.Value{{add.X, add.Y}, {add.Y, add.X}} {
+				mul, ok := ord[0].(*ssa.BinOp)
+				if !ok || mul.Op != token.MUL || !isField(ord[1], "Mu") {
+					continue
+				}
+				if isField(mul.X, "Sigma") || isField(mul.Y, "Sigma") {
+					okForm = true
+				}
+			}
+		}
+		c.Check(okForm, R, fmt.Sprintf("NormalDist.InvCDF:return#%d", n), p.pos(ret.Pos()), "z·Sigma + Mu", "a quantile is returned that is not the standard quantile scaled by Sigma and shifted by Mu (for instance the reflection -InvCDF(1-p), which is right only when Mu is 0): for a distribution with a non-zero mean the quantile function is off by twice the mean in that region and stops being monotone")
+	}
+	c.Floor(R, "finite returns of NormalDist.InvCDF", n, 1)
 }
 
 // c12GeoMean: the geometric mean accumulates in the log domain. A loop-carried float that is multiplied by a raw element
